@@ -5,6 +5,7 @@
 -/
 import Rox.Props.C05
 import Rox.Lemmas.RoundTrip3
+import Rox.Lemmas.AttrEntity
 import Rox.Props.C03
 
 namespace Rox.Props.C07
@@ -75,5 +76,22 @@ theorem entity_reference_equals_replacement_text (opt : Opt) (hdtd : opt.allowDt
     C03.generated_tables_canon generated_tables_canon3 opt hdtd n as pre mid post hx hlim hl32 hattrs
   obtain ⟨di, pi, vi⟩ := C03.tree_mirrors_document n as (pre ++ mid ++ post) hok opt hlim hl32 hattrs
   exact ⟨dh, di, ph, pi, by rw [vh, vi]⟩
+
+/-- **In attribute values** (entity depth 0; every context; `p`, `q` and the entity's replacement
+text literal, i.e. free of `&` and `<`): a successful `normalize_attribute` on `p &name; q` returns
+exactly the normalisation of `p`, of the replacement text and of `q` written one after the other —
+what the value would be with the replacement text in place of the reference (line ends being
+normalised per entity, as XML 4.5 / 2.11 prescribe) — and leaves the loop detector at rest. -/
+theorem entity_reference_in_attribute_value (T : Tables) (txt : Bytes) (c c' : Ctx) (value : Span)
+    (out : Str) (p q : Bytes) (name : Span) (e : Entity) (hd : c.ld.depth = 0)
+    (hval : value.bytes = p ++ [bAmp] ++ name.bytes ++ [bSemi] ++ q)
+    (hp : Rox.Lemmas.litOk p) (hq : Rox.Lemmas.litOk q) (hv : Rox.Lemmas.litOk e.value.bytes)
+    (hcr : (Stream.mk (value.off + p.length) ([bAmp] ++ name.bytes ++ [bSemi] ++ q)).consumeReference T txt =
+      .ok (⟨value.off + p.length + name.bytes.length + 2, q⟩, some (.entity name)))
+    (hfind : findEntity c.entities name.bytes = some e)
+    (h : normalizeAttribute T txt c value = .ok (c', out)) :
+    out = .owned (Rox.Spec.attrLit p ++ Rox.Spec.attrLit e.value.bytes ++ Rox.Spec.attrLit q) ∧
+      c'.ld = ⟨0, 0⟩ :=
+  Rox.Lemmas.normalizeAttribute_entity T txt c c' value out p q name e hd hval hp hq hv hcr hfind h
 
 end Rox.Props.C07
